@@ -33,8 +33,30 @@ const ZXSTRF_COMPRESSED: u32 = 1;
 const ZXST_HEADER_SIZE: usize = 8; // The zx-state header
 const ZXST_BLOCK_HEADER_SIZE: usize = 8; // The header for each block
 
+// Sizes of the fixed parts of the blocks
+const ZXST_CRTR_SIZE: usize = 37;
+const ZXST_Z80R_SIZE: usize = 37;
+const ZXST_SPCR_SIZE: usize = 8;
+#[cfg(all(feature = "sound", feature = "ay"))]
+const ZXST_AY_SIZE: usize = 18;
+const ZXST_KEYB_SIZE: usize = 5;
+const ZXST_AMXM_SIZE: usize = 7;
+const ZXST_RAMP_HEADER_SIZE: usize = 3;
+
+/// Checks that block is not shorter than its fixed part, which is read by the block processor
+fn ensure_block_size(block_data: &[u8], size: usize) -> Result<()> {
+    if block_data.len() < size {
+        return Err(SnapshotLoadError::InvalidSZXFile.into());
+    }
+    Ok(())
+}
+
 // Process Creator (CRTR) block
 fn process_crtr_block<H: Host>(_: &mut Emulator<H>, block_data: &[u8]) {
+    // Creator info is not used, there is no reason to reject the whole file because of it
+    if block_data.len() < ZXST_CRTR_SIZE {
+        return;
+    }
     let crtr_name_bytes = &block_data[0..33];
     let _ = from_utf8(crtr_name_bytes).unwrap();
     let _ = u16::from_le_bytes([block_data[33], block_data[34]]);
@@ -44,6 +66,7 @@ fn process_crtr_block<H: Host>(_: &mut Emulator<H>, block_data: &[u8]) {
 // Process ZXSTZ80REGS (Z80R) block
 fn process_z80r_block<H: Host>(emulator: &mut Emulator<H>, block_data: &[u8]) -> Result<()> {
     // Validate before any change of the CPU state
+    ensure_block_size(block_data, ZXST_Z80R_SIZE)?;
     let interrupt_mode = block_data[28];
     if interrupt_mode > ZXSTZ80_INTERRUPT_MODE_MAX {
         return Err(SnapshotLoadError::InvalidSZXFile.into());
@@ -181,7 +204,13 @@ fn process_z80r_block<H: Host>(emulator: &mut Emulator<H>, block_data: &[u8]) ->
 }
 
 // Process ZXSTSPECREGS (SPCR) block
-fn process_spcr_block<H: Host>(emulator: &mut Emulator<H>, machine_id: u32, block_data: &[u8]) {
+fn process_spcr_block<H: Host>(
+    emulator: &mut Emulator<H>,
+    machine_id: u32,
+    block_data: &[u8],
+) -> Result<()> {
+    ensure_block_size(block_data, ZXST_SPCR_SIZE)?;
+
     // ch7ffd
     if machine_id < ZXST_MID_128K {
         emulator.controller.restore_7ffd(0); // Always 0 for 16k and 48k
@@ -206,11 +235,19 @@ fn process_spcr_block<H: Host>(emulator: &mut Emulator<H>, machine_id: u32, bloc
     // Setting the border after the value of port 0xfe above because that too
     // sets the border color.
     emulator.controller.border_color = ZXColor::from_bits(block_data[0]);
+
+    Ok(())
 }
 
 // Process ZXSTAYBLOCK (AY00)
 #[cfg(all(feature = "sound", feature = "ay"))]
-fn process_ay_block<H: Host>(emulator: &mut Emulator<H>, machine_id: u32, block_data: &[u8]) {
+fn process_ay_block<H: Host>(
+    emulator: &mut Emulator<H>,
+    machine_id: u32,
+    block_data: &[u8],
+) -> Result<()> {
+    ensure_block_size(block_data, ZXST_AY_SIZE)?;
+
     // chFlags
     let flags = block_data[0] as u32;
     if machine_id < ZXST_MID_128K {
@@ -232,10 +269,14 @@ fn process_ay_block<H: Host>(emulator: &mut Emulator<H>, machine_id: u32, block_
         // chAyRegs
         emulator.controller.mixer.ay.set_regs(&block_data[2..]);
     }
+
+    Ok(())
 }
 
 // Process ZXSTKEYB (KEYB)
-fn process_keyb_block<H: Host>(emulator: &mut Emulator<H>, block_data: &[u8]) {
+fn process_keyb_block<H: Host>(emulator: &mut Emulator<H>, block_data: &[u8]) -> Result<()> {
+    ensure_block_size(block_data, ZXST_KEYB_SIZE)?;
+
     // dwFlags
     // ignored for now as only issue 2 is emulated
     let _flags = u32::from_le_bytes([block_data[0], block_data[1], block_data[2], block_data[3]]);
@@ -247,10 +288,14 @@ fn process_keyb_block<H: Host>(emulator: &mut Emulator<H>, block_data: &[u8]) {
     } else {
         emulator.controller.kempston = None;
     }
+
+    Ok(())
 }
 
 // Process ZXSTMOUSE (AMXM)
-fn process_amxm_block<H: Host>(emulator: &mut Emulator<H>, block_data: &[u8]) {
+fn process_amxm_block<H: Host>(emulator: &mut Emulator<H>, block_data: &[u8]) -> Result<()> {
+    ensure_block_size(block_data, ZXST_AMXM_SIZE)?;
+
     // chType
     // Only Kempston mouse is supported
     let mouse = block_data[0] as u32;
@@ -263,6 +308,8 @@ fn process_amxm_block<H: Host>(emulator: &mut Emulator<H>, block_data: &[u8]) {
     } else {
         emulator.controller.mouse = None;
     }
+
+    Ok(())
 }
 
 // Process ZXSTRAMPAGE (RAMP)
@@ -271,6 +318,8 @@ fn process_ramp_block<H: Host>(
     machine_id: u32,
     block_data: &[u8],
 ) -> Result<()> {
+    ensure_block_size(block_data, ZXST_RAMP_HEADER_SIZE)?;
+
     // wFlags
     let flags = u16::from_le_bytes([block_data[0], block_data[1]]) as u32;
 
@@ -296,17 +345,20 @@ fn process_ramp_block<H: Host>(
         {
             let compressed_data: Vec<u8> = block_data[3..].to_vec();
             match decompress_zlib_stream(&compressed_data) {
-                Ok(data) => {
+                Ok(data) if data.len() >= page_data.len() => {
                     return {
                         page_data.copy_from_slice(&data[..page_data.len()]);
                         Ok(())
                     }
                 }
-                Err(_) => return Err(SnapshotLoadError::InvalidSZXFile.into()),
+                _ => return Err(SnapshotLoadError::InvalidSZXFile.into()),
             }
         }
     } else {
         let uncompressed_data: Vec<u8> = block_data[3..].to_vec();
+        if uncompressed_data.len() < page_data.len() {
+            return Err(SnapshotLoadError::InvalidSZXFile.into());
+        }
         page_data.copy_from_slice(&uncompressed_data[..page_data.len()]);
     }
 
@@ -399,17 +451,17 @@ where
                 process_z80r_block(emulator, &block_data)?;
             }
             "SPCR" => {
-                process_spcr_block(emulator, machine_id, &block_data);
+                process_spcr_block(emulator, machine_id, &block_data)?;
             }
             #[cfg(all(feature = "sound", feature = "ay"))]
             "AY\0\0" => {
-                process_ay_block(emulator, machine_id, &block_data);
+                process_ay_block(emulator, machine_id, &block_data)?;
             }
             "KEYB" => {
-                process_keyb_block(emulator, &block_data);
+                process_keyb_block(emulator, &block_data)?;
             }
             "AMXM" => {
-                process_amxm_block(emulator, &block_data);
+                process_amxm_block(emulator, &block_data)?;
             }
             "RAMP" => {
                 process_ramp_block(emulator, machine_id, &block_data)?;
